@@ -171,3 +171,50 @@ def run_rule(rep, fx, rid):
                       '%d path(s): %s' % (n_paths, why), '%s can yield a member outside the window: %s' % (short, bad or 'no path to the result found'),
                       b.where(bb, si))
     rep.floor(rid, n_somes, 2, 'Some(..) results of NumberSetIter::next/next_back')
+
+
+def rule_from_base_and_set(rep, fx, rid):
+    """NumberSet::from_base_and_set keeps exactly the members of the given set that lie in [base, end] (end = the largest member, cut to base + 255).
+    Shared by C14 (membership preserved inside the window) and C03 (every missing number inside the window is requested, the lowest one included)."""
+    from rdv.core import Origins, Pos, callee_res, switch_edges, term_has, term_str
+    rep.rule(rid, 'NumberSet::from_base_and_set inserts every element s of the given set with base <= s <= end (both bounds inclusive, conjunction) and nothing is skipped: the insert '
+                  'call is on every path of the loop body; the set is cut to end = base + 255 exactly when end - base >= 256')
+    b = fx.find('structure::sequence_number::NumberSet::from_base_and_set')
+    rep.analysed(b)
+    og = Origins(b)
+    P = Pos(b)
+    fcs = [c for c in fx.closures_of(b, transitive=False) if c.argc == 2 and sorted(callee_res(t).rsplit('::', 1)[-1] for _bb, t in c.calls()) == ['le', 'le']]
+    okf = len(fcs) == 1
+    why = 'filter closure with two `<=` comparisons: %d' % len(fcs)
+    if okf:
+        c = fcs[0]
+        ogc = Origins(c)
+        rv = ogc.of_local(0, c.return_blocks()[0], 'term')
+        edges = list(switch_edges(c, fx, ogc))
+        first = [cond for s_, t_, cond, lab in edges if lab is True and cond[0] == 'call']
+        # base <= s  (True continues to)  s <= end ; False gives false
+        lo = first and first[0][1].endswith('::le') and term_has(first[0][2][0], lambda x: x[0] in ('field', 'captured') and 'base' in str(x[1])) and term_has(first[0][2][1], lambda x: x == ('param', 2))
+        hi = rv[0] == 'phi' and ('const', 'int', 0) in rv[1] and any(a[0] == 'call' and a[1].endswith('::le') and term_has(a[2][0], lambda x: x == ('param', 2)) and
+                                                                     term_has(a[2][1], lambda x: x[0] in ('field', 'captured') and 'end' in str(x[1])) for a in rv[1])
+        okf = bool(lo) and bool(hi) and len(rv[1]) == 2
+        why = 'filter = %s' % term_str(rv)[:80]
+    rep.check(okf, rid, 'from_base_and_set/filter', 'keeps s with base <= s && s <= end',
+              'from_base_and_set does not keep exactly the members with base <= s <= end (%s): the lowest missing number (the base itself) or the highest one drops out of the set' % why, b.where())
+    ins = [(bb, 'term') for bb, t in b.calls() if callee_res(t).endswith('NumberSet::<N>::insert') or callee_res(t).endswith('NumberSet::insert')]
+    nexts = [(bb, t) for bb, t in b.calls() if callee_res(t).endswith('::next') and term_has(og.of_operand(t['args'][0], bb, 'term'), lambda x: x[0] == 'call' and x[1].endswith('::filter'))]
+    oki = len(ins) == 1 and len(nexts) == 1
+    if oki:
+        nb = nexts[0][0]
+        some = [(s_, t_) for s_, t_, cond, lab in switch_edges(b, fx, og) if lab == 'Some' and cond[0] == 'discr' and term_has(cond, lambda x: x[0] == 'call' and len(x) > 3 and x[3] == nb)]
+        oki = bool(some)
+        for s_, t_ in some:
+            if P.can_reach((t_, 0), (nb, 'term'), avoid_pos=ins):
+                oki = False
+        a = og.of_operand(b.blocks[ins[0][0]]['term']['args'][1], ins[0][0], 'term')
+        oki = oki and term_has(a, lambda x: x[0] == 'call' and len(x) > 3 and x[3] == nb)
+    rep.check(oki, rid, 'from_base_and_set/insert-each', 'every element the filter lets through is inserted',
+              'from_base_and_set does not insert every selected member: requested / acknowledged numbers silently disappear from the set', b.where())
+    g = [(cond, lab) for s_, t_, cond, lab in switch_edges(b, fx, og) if cond[0] == 'bin' and cond[1] in ('Ge', 'Gt') and cond[3][0] == 'const' and term_has(cond[2], lambda x: x[0] == 'bin' and x[1].startswith('Sub'))]
+    okw = any((c[1] == 'Ge' and int(c[3][2]) == 256) or (c[1] == 'Gt' and int(c[3][2]) == 255) for c, _l in g)
+    rep.check(okw, rid, 'from_base_and_set/window-cut', 'cut to base + 255 when end - base >= 256',
+              'from_base_and_set does not cut the set exactly at 256 numbers (%s)' % [term_str(c)[-30:] for c, _l in g][:2], b.where())
